@@ -261,9 +261,14 @@ def run_connection(T, timeout, bursts, buffer_size=256, seq_start=0,
 
             def cb(packet, cid=cid):
                 net.log.append(("callback", net.clock.now, cid, bytes(packet)))
+            # payloads: none, and bytes that mean something to text
+            # formatting (the word 123 is "{"; error messages quote packets)
+            data = [b"", b"", b"{\0\0\0", b"}\0\0\0{", b"{0}", b"{x!r:>9}",
+                    b"%s %d %(a)s \\", bytes(range(120, 130)),
+                    b"\xff\xfe{}\n"][cid % 9]
             calls.append(sc.scpcall(cid % 200, (cid >> 3) % 200, cid % 18,
                                     2 + cid % 3, cid, cid ^ 0x55, 7,
-                                    b"", cb, extra))
+                                    data, cb, extra))
         sel0 = net.n_select
         try:
             conn.send_scp_burst(buffer_size, b["W"], iter(calls))
